@@ -12,7 +12,7 @@ BASE_NOTE = ("Trusted: Coq 8.16.1 kernel incl. vm_compute (no native_compute); n
 
 # id -> (claimed?, technique, level text, extra note)
 CHECKS = {
-    "C01": ("Coq theorems by induction on the schema (C01_validity_plain, C01_validity_classes: parse_element then call = Spec6.v6 / valid6, all keywords, any nesting, object classes with the parse state threaded) + generated-table agreement + vm_compute correspondence of model, Draft-6 reference and implementation",
+    "C01": ("Coq theorems by induction on the schema (C01_validity_plain, C01_validity_classes, C01_validity_classes_revisits, C01_parser_replay: parse_element then call = Spec6.v6 / valid6, all keywords, any nesting, object classes with the parse state threaded) + generated-table agreement + vm_compute correspondence of model, Draft-6 reference and implementation",
             "C01_validity_plain (class-free fragment, any parse state) and C01_validity_classes (schemas with named object classes whose names do not repeat along the parse, so de-duplication "
             "returns each class itself): for every schema of the fragment (C01Plain.plain / walk, decided by the executable Plain.in_fragment proved sound), every value, regex/format oracle "
             "and configuration whose composition order is exactly the three list-valued keywords (proved of the regenerated table), the element returned by the model parser accepts exactly "
@@ -20,8 +20,10 @@ CHECKS = {
             "validation error exactly when it does not, unless the call crashes; covers type (incl. lists), enum/const, all thresholds, multipleOf, pattern, format, "
             "items/additionalItems/contains/uniqueItems, properties/patternProperties/additionalProperties/required/propertyNames/dependencies, anyOf/oneOf/allOf/not and their restructuring, "
             "ObjectMeta classes.  The model is tied to the code by regenerated tables and by running model, reference and implementation on the same (schema, value) cases; the run "
-            "reports on how many cases each theorem applies (quick tier: 301 of 380 schemas).",
-            "full on the fragment (about four fifths of the generated cases); outside it (repeated class names - de-duplication substitutes an ==-equal class and == is not a verdict congruence, K17; "
+            "reports on how many cases each theorem applies (quick tier: 336 of 423 schemas).  C01_validity_classes_revisits extends the class theorem to schema objects met again (one definition "
+            "in several positions after $ref resolution: walk2, decided by Plain2.in_fragment2): by C01_parser_replay (the parse state only grows, and re-parsing a schema in any extension of the state "
+            "returns the same element and adds nothing) the parser returns the element built the first time; premise on the run: the classes of the final state are == to themselves (refl_stateb).",
+            "full on the fragment (about four fifths of the generated cases); outside it (two DIFFERENT object schemas under one title - de-duplication compares with == and == is not a verdict congruence, K17; "
             "colliding attribute names K1; undeclared required names K5; type lists containing 'object') the verdicts are decided by the correspondence run and the Spec6 oracle only"),
     "C11": ("Coq theorem (permutation + topological order + cycle refusal of the emission loop, all finite dependency maps) + regenerated paths table + vm_compute correspondence on identity graphs",
             "The emission loop of orderer() is proved, for every dependency map, to yield a permutation in dependency order or to refuse a cycle; "
@@ -146,8 +148,8 @@ CHECKS = {
             "order-exposing use of a set in the package is an audited harmless one.  The hash function and interpreter are runtime: 8 (quick) / 32 (thorough) "
             "processes generate module text, JSON and class names for every document and must agree byte for byte.  Fix 95e6237.",
             "partial by nature: all orders covered in the model; completeness of the scan and the runtime are trusted/sampled"),
-    "C02": ("Coq theorems for each mechanism of the generator (declaration order/cycles, class statement = ObjectMeta.__new__, constructor-expression round trip, typing-import triggers, class-name shape) over tables regenerated from /repo; the composition is decided per run by executing the generated module in a fresh namespace and comparing its classes with the directly parsed ones",
-            "PARTIAL proof.  C02_declared_before_use, C02_class_statement, C02_expressions_rebuild, C02_typing_imports_cover, C02_class_names, C02_positions_reached are "
+    "C02": ("Coq theorems for each mechanism of the generator (declaration order/cycles, class statement = ObjectMeta.__new__, constructor-expression round trip, typing-import triggers, class-name shape, one class per re-parsed schema) over tables regenerated from /repo; the composition is decided per run by executing the generated module in a fresh namespace and comparing its classes with the directly parsed ones",
+            "PARTIAL proof.  C02_declared_before_use, C02_class_statement, C02_expressions_rebuild, C02_typing_imports_cover, C02_class_names, C02_positions_reached, C02_reparse_same_class are "
             "proved for all inputs of their mechanism.  The end-to-end claim passes through json_ref_dict.materialize, Python's repr of literals and Python's lexer/exec "
             "(not modelled): every generated document (local and cross-file $ref, shared definitions, auto-titled nested objects, repeated titles, false sub-schemas) "
             "is generated by main(), executed with only builtins in scope, and its classes compared (count, names, == both ways, verdicts on aimed values) with "
